@@ -186,6 +186,8 @@ class World:
         """Aggregate constructions of an ADT (variant)"""
         r = []
         for f in self.fns():
+            if f.derived:
+                continue   # #[derive(Clone, ...)] re-builds variants; not a producer of new values
             for s in f.stmts():
                 if s.k == 'assign' and s.rv.k == 'agg' and s.rv.j.get('ak') == 'adt':
                     p = strip_generics(s.rv.j['adt'])
